@@ -103,6 +103,7 @@ def run(chk, facts, tier, only=None):
 
     def r1():
         de_rules.rule_check_before_read(chk, facts)
+        de_rules.rule_mismatch_is_subtype_error(chk, facts)
 
     def r2():
         sites = [
